@@ -545,4 +545,36 @@ theorem not_escapesOnly_of_canEscape {W : World} {tbl : List (Site × List Cls)}
   obtain ⟨prim, hp, hl⟩ := hc
   exact hn (h prim hp c hl)
 
+/-- "No class of `banned` (nor a subclass) leaves function `f`": for every behaviour of the primitive call sites
+within the assumption table, an exception that leaves an execution of `f` is not below any class of `banned`. -/
+def NeverEscapes (W : World) (tbl : List (Site × List Cls)) (P : Prog) (f : Site) (banned : List Cls) : Prop :=
+  ∀ prim : Site → Cls → Prop, Respects W prim (lookupAbs W tbl) →
+    ∀ c, link W prim P f c → ¬ ∃ A, A ∈ banned ∧ Below W.tree c A
+
+theorem neverEscapes_of_checkNever {W : World} (hT : ordered W.tree = true) {tbl : List (Site × List Cls)} {P : Prog}
+    {specs : List (Site × List Cls)} (h : checkNever W tbl P specs = true) {f : Site} {banned : List Cls}
+    (hm : (f, banned) ∈ specs) : NeverEscapes W tbl P f banned := by
+  intro prim hp c hl hex
+  have hmem := link_sound hT (respects_expand hT hp) P f c hl
+  simp only [checkNever, List.all_eq_true] at h
+  have := h _ hm
+  simp only [summTable_eq] at this
+  have hc := this c hmem
+  have hany := (any_sub_iff hT c banned).mpr hex
+  simp [hany] at hc
+
+/-- a class that can escape contradicts a claim that it never does -/
+theorem not_neverEscapes_of_canEscape {W : World} {tbl : List (Site × List Cls)} {P : Prog} {f : Site} {c : Cls}
+    {banned : List Cls} (hc : CanEscape W tbl P f c) (hb : c ∈ banned) : ¬ NeverEscapes W tbl P f banned := by
+  intro h
+  obtain ⟨prim, hp, hl⟩ := hc
+  exact h prim hp c hl ⟨c, hb, Below.refl c⟩
+
+/-- the combined check is the conjunction of the three checks -/
+theorem checkAll_split {W : World} {tbl : List (Site × List Cls)} {P : Prog} {only never : List (Site × List Cls)}
+    {can : List (Site × Cls)} (h : checkAll W tbl P only never can = true) :
+    checkOnly W tbl P only = true ∧ checkNever W tbl P never = true ∧ checkCan W tbl P can = true := by
+  simp only [checkAll, Bool.and_eq_true] at h
+  exact ⟨h.1.1, h.1.2, h.2⟩
+
 end NfcVerif.ExcFlow
